@@ -242,6 +242,32 @@ pub fn run(ctx: &Ctx) -> CheckResult {
         });
         res.absorb(merge_jobs(outs));
     }
+    // (e): prices that are nearly - but not exactly - equal (1 ulp, 1e-10, 1e-7 apart) and tiny
+    // volumes: the accept/reject predicate and the getters must still be exact
+    if !res.out.failed() {
+        let near = [100.0, 99.99999999999999, 100.00000001, 99.99999995, 100.00001, 3.3, 1.1 + 2.2];
+        let vols = [0.0, 1e-300, -1e-300, 5.0];
+        let mut out = JobOut::default();
+        let mut path: Vec<(u8, f64)> = Vec::with_capacity(5);
+        'e: for &o in &near {
+            for &h in &near {
+                for &l in &near {
+                    for &c in &near {
+                        for &v in &vols {
+                            path.clear();
+                            path.extend([(0u8, o), (1, h), (2, l), (3, c), (4, v)]);
+                            out.stats.traces += 1;
+                            out.stats.states += 1;
+                            if !judge(&path, &mut out) {
+                                break 'e;
+                            }
+                        }
+                    }
+                }
+            }
+        }
+        res.absorb(out);
+    }
     // (d): all setter sequences with repetition up to length 6 (7 thorough) over {-1, 1, NaN}
     if !res.out.failed() {
         let sub = [-1.0, 1.0, f64::NAN];
@@ -265,7 +291,7 @@ pub fn run(ctx: &Ctx) -> CheckResult {
     res.out.stats.samples.push("DataItem::builder().open(-0.0).high(0.0).low(-0.0).close(0.0).volume(NaN).build() -> Err(DataItemInvalid)".into());
     res.out.stats.samples.push("DataItem::builder().high(2).low(1).build() -> Err(DataItemIncomplete)".into());
     res.rule = "the builder as a state machine: state = (Option<f64>)^5, actions = 5 setters x 10 lattice values, observation = build(); every abstract state reached by replaying a setter path on a fresh real builder and compared with the reference predicate (Incomplete iff a field is unset, else Invalid iff the six comparisons fail, else Ok with bit-exact getters and clone ==); non-trivial = build() returned Ok".into();
-    res.bounds = format!("(a) all 11^5 = 161051 abstract states; (b) all 50 transitions out of each; (c) all 120 setter orders on all 10^5 complete tuples; (d) all setter sequences with repetition up to length {} over {{-1, 1, NaN}}", if th { 7 } else { 6 });
+    res.bounds = format!("(a) all 11^5 = 161051 abstract states; (b) all 50 transitions out of each; (c) all 120 setter orders on all 10^5 complete tuples; (d) all setter sequences with repetition up to length {} over {{-1, 1, NaN}}; (e) all 7^4 x 4 tuples over nearly-equal prices {{100, 100-1ulp, 100+1e-8, 100-5e-8, 100+1e-5, 3.3, 1.1+2.2}} and volumes {{0, +-1e-300, 5}}", if th { 7 } else { 6 });
     res.assumptions = vec!["exhaustive over the lattice {-inf,-2,-1,-0.0,0.0,1,2,3,+inf,NaN}: every order type of the four prices and every sign class of volume; finite values outside it are not enumerated".into()];
     res
 }
